@@ -1502,7 +1502,9 @@ func (self *Analyzer) matchExpression(node pAst.MatchExpression) ast.AnalyzedMat
 		containsDefault := false
 		for _, lit := range arm.Literals {
 			if !lit.IsLiteral() {
-				defaultArmSpan = &arm.Range
+				// (a copy: `arm` is the loop variable, a pointer into it names whichever arm is looked at later)
+				defaultSpan := arm.Range
+				defaultArmSpan = &defaultSpan
 				// (the action was analysed above: a second analysis doubles the work - and every diagnostic - per
 				// nesting level of default arms)
 				defaultAction := action
